@@ -12,6 +12,8 @@ package main
 
 import (
 	"bytes"
+	"fmt"
+	"strings"
 	"encoding/hex"
 	"os"
 	"path/filepath"
@@ -162,7 +164,7 @@ func execC04Spec(in sx.V) sx.V {
 	if err := tlb.Marshal(c, pv.Elem().Interface()); err != nil {
 		return sx.A("err")
 	}
-	return sx.L(tlbdesc.CellSx(c), sx.B(true), sx.B(true))
+	return sx.L(tlbdesc.CellSx(c), sx.B(true), sx.B(true), sx.B(c04DecodesBack(ct, c, in.List[3])))
 }
 
 // c04.cur ('Schema go-type descriptor value k): c04.spec after the read cursors
@@ -185,7 +187,25 @@ func execC04Cur(in sx.V) sx.V {
 	if err := tlb.Marshal(c, pv.Elem().Interface()); err != nil {
 		return sx.A("err")
 	}
-	return sx.L(tlbdesc.CellSx(c), sx.B(true), sx.B(true))
+	return sx.L(tlbdesc.CellSx(c), sx.B(true), sx.B(true), sx.B(c04DecodesBack(ct, c, in.List[3])))
+}
+
+// c04DecodesBack: tlb.Unmarshal of the produced cell gives the value back and consumes the cell
+func c04DecodesBack(ct *c03Type, c *boc.Cell, want sx.V) (ok bool) {
+	defer func() {
+		if r := recover(); r != nil {
+			ok = false
+		}
+	}()
+	pv := reflect.New(ct.t)
+	c.ResetCounters()
+	if err := tlb.Unmarshal(c, pv.Interface()); err != nil {
+		return false
+	}
+	if !(cellFullyRead(c) || ct.d.IsTail()) {
+		return false
+	}
+	return ct.d.Render(pv.Elem()).String() == want.String()
 }
 
 func execC04ExtMsg(in sx.V) sx.V {
@@ -235,7 +255,10 @@ func c04Spec(c *Ctx, fam, schema string, ct *c03Type, v sx.V) {
 	if schema == "prim" {
 		cls = c03Class(fam+"|"+schema, ct, v)
 	}
-	c.Emit("c04.spec", in, cls)
+	out := c.Emit("c04.spec", in, cls)
+	if out.K == sx.KL && len(out.List) == 4 && !out.List[3].Bool {
+		c.Fail("c04.spec", in, "decode-back-"+ct.name, "tlb.Unmarshal of the cell tlb.Marshal produced for "+ct.name+" does not give the value back (or leaves bits / references unread)")
+	}
 }
 
 func genC04(c *Ctx) {
@@ -307,6 +330,9 @@ func genC04(c *Ctx) {
 			c03Case(c, "text", ct, c03RandValue(ct, c.R))
 		}
 	}
+	// 2e. dictionaries handed over in another slice order (NewHashmapE accepts any order; keys that
+	//     differ only in their last bits): the cell must be the one of the ascending order
+	c04DictOrder(c)
 	// 2c. exotic cells (library, pruned branch, Merkle proof / update) through every boc.Cell
 	//     position: type, level mask and hash are kept; decode -> encode reproduces the hash
 	c03ExoticFamily(c, "c04")
@@ -429,4 +455,85 @@ func c04RealData(c *Ctx) {
 			}
 		}
 	}
+}
+
+func c04HasDict(d *tlbdesc.Desc) bool {
+	if d.K == tlbdesc.KDictE {
+		return true
+	}
+	for _, s := range d.Sub {
+		if c04HasDict(s) {
+			return true
+		}
+	}
+	for _, a := range d.Alts {
+		if a.D != nil && c04HasDict(a.D) {
+			return true
+		}
+	}
+	return false
+}
+
+func c04DictOrder(c *Ctx) {
+	for _, n := range c03Names {
+		ct := c03Types[n]
+		if ct.ext || !c04HasDict(ct.d) {
+			continue
+		}
+		k := c.Scale(8, 100)
+		switch n {
+		case "tlb.Transaction", "tlb.CurrencyCollection", "tlb.StateInit", "tlb.ExtraCurrencyCollection", "wallet.DataV4", "wallet.DataHighloadV2":
+			k = c.Scale(80, 1000)
+		}
+		for i := 0; i < k; i++ {
+			pv := reflect.New(ct.t)
+			v := ct.d.Rand(c.R, pv.Elem(), 0)
+			c1 := boc.NewCell()
+			if tlb.Marshal(c1, pv.Elem().Interface()) != nil {
+				continue
+			}
+			moved := 0
+			ct.d.WalkLive(pv.Elem(), func(leaf *tlbdesc.Desc, lv reflect.Value) {
+				if leaf.K == tlbdesc.KDictE && tlbdesc.PermuteDict(c.R, lv) >= 2 {
+					moved++
+				}
+			})
+			if moved == 0 {
+				continue
+			}
+			in := sx.L(sx.Str(ct.name), trimSx(v))
+			c2 := boc.NewCell()
+			var err error
+			func() {
+				defer func() {
+					if r := recover(); r != nil {
+						err = fmt.Errorf("panic: %v", r)
+					}
+				}()
+				err = tlb.Marshal(c2, pv.Elem().Interface())
+			}()
+			key := "dict-order-" + ct.name
+			if err != nil {
+				c.Fail("c04.dictorder", in, key, "a value of "+ct.name+" whose dictionaries hold the same pairs in another slice order does not encode: "+err.Error())
+				continue
+			}
+			if !sameHash(c1, c2) {
+				c.Fail("c04.dictorder", in, key, "the cell of "+ct.name+" depends on the slice order of a dictionary's keys (same mapping, different cell)")
+				continue
+			}
+			if !c04DecodesBack(ct, c2, v) {
+				c.Fail("c04.dictorder", in, key, "a value of "+ct.name+" encoded from permuted dictionary slices does not decode back to the same mapping")
+				continue
+			}
+			c.Note("c04.dictorder", "dictorder|"+ct.name[:strings.IndexByte(ct.name, '.')]+"|ok", in)
+		}
+	}
+}
+
+func trimSx(v sx.V) sx.V {
+	s := v.String()
+	if len(s) > 600 {
+		return sx.Str(s[:600] + "...")
+	}
+	return v
 }
